@@ -297,6 +297,33 @@ fn worker(args: &Args) -> i32 {
     0
 }
 
+/// replay of one damaged file: `c19 --one <file> --line <1-based line> --edit <kind>`; prints the outcome and the time it took
+fn one_case(args: &Args, path: &str) -> i32 {
+    let p = PathBuf::from(path);
+    let n = p.file_name().map(|n| n.to_string_lossy().to_lowercase()).unwrap_or_default();
+    let kind = if n.ends_with(".ctehexml") { "ctehexml" } else if n == "kygananciassolares.txt" { "kyg" } else if n == "newbdl_o.tbl" { "tbl" } else { "cte" };
+    let li: usize = args.extra.get("line").and_then(|s| s.parse::<usize>().ok()).unwrap_or(1).saturating_sub(1);
+    let edit = args.extra.get("edit").cloned().unwrap_or_else(|| "delete".into());
+    let tmp = PathBuf::from(args.extra.get("tmp").cloned().unwrap_or_else(|| "/verif/.cache/run/c19-tmp".into()));
+    std::fs::create_dir_all(&tmp).ok();
+    let ctx = Ctx { catalog: hulc::ctehexml::load_lider_catalog().unwrap_or_default(), tmp };
+    let text = decode(&std::fs::read(&p).unwrap_or_default());
+    let lines: Vec<&str> = text.lines().collect();
+    let Some(t) = damage(&lines, li, &edit, text.len()) else {
+        println!("edit does not apply");
+        return 2;
+    };
+    let t0 = std::time::Instant::now();
+    let r = std::panic::catch_unwind(std::panic::AssertUnwindSafe(|| process(&ctx, kind, &t)));
+    let o = match r {
+        Ok(Ok(true)) => "ok",
+        Ok(Ok(false)) | Ok(Err(_)) => "err",
+        Err(_) => "panic",
+    };
+    println!("{o} {:.3}s", t0.elapsed().as_secs_f64());
+    0
+}
+
 /// `Polygon::edge_vertices` against the model: vertex names of every shape the damaged files can contain
 fn edge_cases(cw: &mut CaseWriter, seed: u64, n_random: usize) {
     use hulc::bdl::Polygon;
@@ -399,6 +426,9 @@ pub fn run(args: &Args) -> i32 {
     if args.extra.contains_key("worker") {
         return worker(args);
     }
+    if let Some(path) = args.extra.get("one") {
+        return one_case(args, path);
+    }
     let mut cw = CaseWriter::new(&args.out, "cases.jsonl");
     let exe = std::env::current_exe().expect("exe");
     let gen_dir = PathBuf::from(&args.out).join("gen");
@@ -478,7 +508,41 @@ pub fn run(args: &Args) -> i32 {
                         }
                         Err(mpsc::RecvTimeoutError::Timeout) => {
                             if let Some(k) = current {
-                                tx.send((fi, k, "timeout".into())).ok();
+                                // a busy machine can starve a worker for 20 s: the case is a hang only if it also exceeds 3 minutes on its own
+                                let _ = child.kill();
+                                let alone = Command::new(&exe)
+                                    .args(["c19", "--worker", "1", "--file", &fi.to_string(), "--from", &k.to_string(), "--to", &(k + 1).to_string(), "--stride", "1",
+                                           "--offset", "0", "--tmp", &tmp.to_string_lossy(), "--gen", &gen_dir.to_string_lossy()])
+                                    .stdout(Stdio::piped())
+                                    .stderr(Stdio::null())
+                                    .spawn();
+                                let mut verdict = "timeout".to_string();
+                                if let Ok(mut c2) = alone {
+                                    let so = c2.stdout.take().unwrap();
+                                    let (t2, r2) = mpsc::channel::<String>();
+                                    std::thread::spawn(move || {
+                                        for line in std::io::BufReader::new(so).lines().map_while(Result::ok) {
+                                            if t2.send(line).is_err() {
+                                                break;
+                                            }
+                                        }
+                                    });
+                                    let deadline = std::time::Instant::now() + Duration::from_secs(180);
+                                    while let Ok(l) = r2.recv_timeout(deadline.saturating_duration_since(std::time::Instant::now())) {
+                                        if let Some(r) = l.strip_prefix("C19 DONE ") {
+                                            if let Some((_, o)) = r.split_once('\t') {
+                                                verdict = o.to_string();
+                                            }
+                                            break;
+                                        }
+                                        if l.starts_with("C19 END") {
+                                            break;
+                                        }
+                                    }
+                                    let _ = c2.kill();
+                                    let _ = c2.wait();
+                                }
+                                tx.send((fi, k, verdict)).ok();
                                 from = k + 1;
                             } else {
                                 finished = true;
